@@ -184,6 +184,69 @@ func runNtsResp(tags string, a []Val) {
 		VI(aerr), cookiesVal(d2.Cookies), VL(sv...)}))
 }
 
+// nts.req: header, stale tail, [cookies the client holds], key, tape (32 bytes identifier, 16 bytes
+// nonce) -> panicked, encoding, decode error class, decoded packet, accepted by ProcessRequest,
+// [cookies after it], identifier returned.  Client side: NewRequestPacket + EncodePacket;
+// server side: DecodePacket + ProcessRequest.
+func runNtsReq(tags string, a []Val) {
+	hdr, tail := a[0].B, a[1].B
+	var data ntske.Data
+	for _, c := range a[2].L {
+		data.Cookie = append(data.Cookie, c.B)
+	}
+	data.C2sKey = a[3].B
+	var b []byte
+	if len(tail) == 0 {
+		b = append([]byte(nil), hdr...)
+		b = b[:len(b):len(b)]
+	} else {
+		b = append(append(make([]byte, 0, len(hdr)+len(tail)), hdr...), tail...)[:len(hdr)]
+	}
+	var pan bool
+	var id []byte
+	withTape(a[4].B, func() {
+		pan = didPanic(func() {
+			var pkt nts.Packet
+			pkt, id = nts.NewRequestPacket(data)
+			nts.EncodePacket(&b, &pkt)
+		})
+	})
+	if pan {
+		w.Case("nts.req", tags, fmtVals(a), fmtVals([]Val{VI(1), VBy(nil), VI(0), VL(), VI(0), VL(), VBy(nil)}))
+		return
+	}
+	enc := append([]byte(nil), b...)
+	var d nts.Packet
+	err := nts.DecodePacket(&d, enc)
+	authOK := false
+	after := VL()
+	if err == nil {
+		var d2 nts.Packet
+		if nts.DecodePacket(&d2, enc) == nil {
+			authOK = nts.ProcessRequest(enc, a[3].B, &d2) == nil
+			after = cookiesVal(d2.Cookies)
+		}
+	}
+	w.Case("nts.req", tags, fmtVals(a), fmtVals([]Val{VI(0), VBy(enc), VI(ntsErrClass(err)), ntsPktVal(&d), VBool(authOK), after, VBy(id)}))
+}
+
+// cookie lengths at which a packet of k cookie-sized fields next to a 32-byte identifier and
+// an authenticator crosses the 1024-byte limit (904 bytes for the fields), +-8 bytes
+func boundaryCookieLens() []int {
+	var out []int
+	seen := map[int]bool{}
+	for k := 1; k <= 8; k++ {
+		c := 904/k - 4
+		for d := -8; d <= 8; d++ {
+			if l := c + d; l >= 0 && !seen[l] {
+				seen[l] = true
+				out = append(out, l)
+			}
+		}
+	}
+	return out
+}
+
 // nts.pos: bytes before the authenticator (header + extension fields, known and unknown), key,
 // plaintext, nonce, [cookie bodies the plaintext was built from], the bytes before are well-formed, the plaintext is built from the bodies
 // -> packet, decode error class, decoded packet, ProcessRequest error class, [cookies after it].
@@ -449,6 +512,44 @@ func genNts(r *lib.Rng, thorough bool) {
 		}
 		runNtsResp(tags, []Val{VBy(r.Bytes(48)), VBy(tail), VBy(nonZero(r.Bytes(idLen))), VL(cs...),
 			VBy(r.Bytes(lib.Pick(r, 32, 32, 64))), VBy(r.Bytes(16))})
+	}
+	// constructors at every size where the packet length crosses the limit: cookie lengths around
+	// 904/k - 4 (k = 1..8 fields), 32-byte identifier, 1..8 held cookies / 1..9 issued cookies
+	freshTail := func() []byte {
+		if r.Bool() {
+			return nonZero(r.Bytes(1024 - 48))
+		}
+		return nil
+	}
+	for _, l := range boundaryCookieLens() {
+		for cnt := 1; cnt <= 9; cnt++ {
+			if !thorough && l%4 != 0 && (cnt+l)%3 != 0 {
+				continue
+			}
+			var cs []Val
+			for i := 0; i < cnt; i++ {
+				cs = append(cs, VBy(nonZero(r.Bytes(l))))
+			}
+			tags := "nt,boundary"
+			if l%4 != 0 {
+				tags = "boundary,unalignedcookie"
+			}
+			runNtsResp(tags+",resp", []Val{VBy(r.Bytes(48)), VBy(freshTail()), VBy(nonZero(r.Bytes(32))), VL(cs...),
+				VBy(r.Bytes(lib.Pick(r, 32, 64))), VBy(r.Bytes(16))})
+			if cnt <= 8 {
+				runNtsReq(tags+",req", []Val{VBy(r.Bytes(48)), VBy(freshTail()), VL(cs...), VBy(r.Bytes(lib.Pick(r, 32, 64))), VBy(r.Bytes(48))})
+			}
+		}
+	}
+	// requests as a client builds them
+	for k := 0; k < n/3; k++ {
+		l := lib.Pick(r, 100, 104, 124, 124, 124, 0, 1, 24, 256, 300, 448, 600, 892, 896, 897, 900, 1000, r.Intn(900))
+		cnt := lib.Pick(r, 1, 1, 2, 7, 8, 1+r.Intn(8), 9, 0)
+		var cs []Val
+		for i := 0; i < cnt; i++ {
+			cs = append(cs, VBy(nonZero(r.Bytes(l))))
+		}
+		runNtsReq("nt,req", []Val{VBy(r.Bytes(48)), VBy(freshTail()), VL(cs...), VBy(r.Bytes(lib.Pick(r, 32, 64))), VBy(r.Bytes(48))})
 	}
 	// unknown extension fields between the known ones: the authenticator position
 	for k := 0; k < n/2; k++ {
